@@ -240,14 +240,19 @@ func parse(f format, ms []*am, jk []junk, rc *reqCtx) (*metric.BrokerBatchRows, 
 	if err != nil {
 		return nil, fmt.Errorf("harness: %w", err)
 	}
+	// The handler's namespace is a heap string taken from the URL. The influx and flat paths
+	// sanitise '|' IN PLACE through an unsafe string->[]byte cast, so a string constant must
+	// never be handed in (it would fault on the write); a private copy per request also keeps
+	// that mutation away from the model's inputs.
+	ns := strings.Clone(rc.NS)
 	var batch *metric.BrokerBatchRows
 	switch f {
 	case fProto:
-		batch, err = proto.Parse(req, toTags(rc.Enriched), rc.NS, rc.Limits)
+		batch, err = proto.Parse(req, toTags(rc.Enriched), ns, rc.Limits)
 	case fFlatClient, fFlatRaw:
-		batch, err = flat.Parse(req, toTags(rc.Enriched), rc.NS, rc.Limits)
+		batch, err = flat.Parse(req, toTags(rc.Enriched), ns, rc.Limits)
 	case fInflux:
-		batch, err = influx.Parse(req, toTags(rc.Enriched), rc.NS, rc.Limits)
+		batch, err = influx.Parse(req, toTags(rc.Enriched), ns, rc.Limits)
 	}
 	if err != nil {
 		if strings.Contains(err.Error(), "empty metrics") {
